@@ -100,14 +100,17 @@ func execCase(c *Case, steps int, viaUpdater, spare bool) (out outcome) {
 	nsname := types.NamespacedName{Namespace: "ns", Name: "obj"}
 	ctx, cancel := context.WithTimeout(context.Background(), 30*time.Second)
 	defer cancel()
+	doneFlag := "-" // what the retry function returned last (not observable through Updater.Update)
 	if viaUpdater {
 		u := frameworkStatus.NewUpdater(f, logr.Discard())
 		u.Update(ctx, frameworkStatus.UpdateRequest{NsName: nsname, ResourceType: k.newObj(), Setter: setter})
 	} else {
 		fn := frameworkStatus.NewRetryUpdateFunc(f, f.Status(), nsname, k.newObj(), logr.Discard(), setter)
+		doneFlag = "0"
 		for i := 0; i < steps; i++ {
 			done, err := fn(ctx)
 			if done || err != nil {
+				doneFlag = "1"
 				break
 			}
 		}
@@ -122,8 +125,12 @@ func execCase(c *Case, steps int, viaUpdater, spare bool) (out outcome) {
 		out.schema = esc(strings.Join(f.schemaViol, ","))
 	}
 	out.obs = fmt.Sprintf("calls:%s/subs:%s/store:%s/inv:%d", calls, encStatuses(f.subs), encStatus(k.getStatus(f.store)), inv)
-	out.judge = fmt.Sprintf("kind=%s ctlr=%s steps=%d new=%s calls=%s gets=%s subs=%s",
-		k.name, esc(c.Ctlr), steps, encStatus(c.New), calls, encStatuses(f.gets), encStatuses(f.subs))
+	jcalls := "*"
+	if len(f.jcalls) > 0 {
+		jcalls = strings.Join(f.jcalls, ",")
+	}
+	out.judge = fmt.Sprintf("kind=%s ctlr=%s steps=%d new=%s calls=%s gets=%s subs=%s done=%s",
+		k.name, esc(c.Ctlr), steps, encStatus(c.New), jcalls, encStatuses(f.gets), encStatuses(f.subs), doneFlag)
 	return out
 }
 
@@ -137,10 +144,12 @@ func trimOwn(k *kindOps, prev, own []Entry) []Entry {
 		k.setStatus(src, cloneStatus(prev))
 		pol := &graph.Policy{Source: src}
 		for i := range own {
+			// every other target is an invalid route: it still becomes an ancestor (with a TargetNotFound
+			// condition) and must be subject to the same "list is full" check
 			route := &graph.L7Route{
 				Source:     &gatewayv1.HTTPRoute{},
 				RouteType:  graph.RouteTypeHTTP,
-				Valid:      true,
+				Valid:      i%2 == 0,
 				Attachable: true,
 				ParentRefs: []graph.ParentRef{{}},
 			}
